@@ -4,6 +4,8 @@ use crate::report::Cfg;
 use crate::Case;
 
 pub mod bitvec;
+pub mod iters;
+pub mod prims;
 pub mod trees;
 pub mod vectors;
 
@@ -17,6 +19,9 @@ pub fn cases(cfg: &Cfg) -> Vec<Case> {
         "C06" => vectors::cases_c06(cfg),
         "C07" => vectors::cases_c07(cfg),
         "C08" => bitvec::cases_c08(cfg),
+        "C12" => iters::cases_c12(cfg),
+        "C13" => prims::cases_c13(cfg),
+        "C17" => prims::cases_c17(cfg),
         other => {
             eprintln!("unknown property {}", other);
             std::process::exit(64);
